@@ -428,6 +428,7 @@ pub fn main() -> i32 {
       };
       drive(&crate::engines::CrashEngine { c02 }, &args)
     }
+    "fault" => drive(&crate::engines::FaultEngine, &args),
     other => {
       eprintln!("harness error: unknown mode `{}`", other);
       2
